@@ -689,18 +689,76 @@ def concretize_int(sym, trunc=False, lo=None, hi=None):
     lo = INT_LO if lo is None else lo
     hi = INT_HI if hi is None else hi
     c = CTX
+    if isinstance(sym, Sym):
+        r = resolve(sym)
+        if not isinstance(r, Sym):
+            return int(r) if trunc else int(math.floor(r))
     # ask the model first to avoid a linear scan
     if c._model_ok():
         try:
             v = c.model.eval(ti, model_completion=True).as_long()
             if lo <= v <= hi and bool(SymB(ti == v)):
+                _learn(sym, v)
                 return v
         except (z3.Z3Exception, AttributeError):
             pass
     for v in range(lo, hi + 1):
         if bool(SymB(ti == v)):
+            _learn(sym, v)
             return v
     raise PathAbort("integer concretisation out of [%d,%d]" % (lo, hi))
+
+
+def _single_atom(x):
+    """x == c0 + c1*atom (one variable, degree one, no denominator) -> (vid, c0, c1) else None"""
+    if not isinstance(x, Sym) or x.d is not None:
+        return None
+    vid, c0, c1 = None, Fr(0), None
+    for m, cf in x.n.t.items():
+        if not m:
+            c0 = cf
+        elif len(m) == 1 and m[0][1] == 1 and vid in (None, m[0][0]):
+            vid, c1 = m[0][0], cf
+        else:
+            return None
+    return (vid, c0, c1) if vid is not None else None
+
+
+def _learn(sym, v):
+    """after the path has pinned the integer part of `sym` to v: if sym is an affine image of one atom and is
+    provably equal to v on this path, remember the atom's value (later terms over it become constants)"""
+    sa = _single_atom(sym)
+    if sa is None:
+        return
+    vid, c0, c1 = sa
+    c = CTX
+    known = c.memo.setdefault("known_atoms", {})
+    if vid in known:
+        return
+    r, _ = check(c.all() + [sym.n.z3() != v], rlimit=RLIMIT // 8)
+    if r == "unsat":
+        known[vid] = (Fr(v) - c0) / c1
+
+
+def resolve(x):
+    """substitute atoms whose value the current path has pinned; returns a Fraction when nothing symbolic is left"""
+    if not isinstance(x, Sym):
+        return x
+    c = CTX
+    known = c.memo.get("known_atoms") if c is not None else None
+    if x.is_const():
+        return x.const_value()
+    if not known or x.d is not None:
+        return x
+    tot = Fr(0)
+    for m, cf in x.n.t.items():
+        t = cf
+        for vid, e in m:
+            if vid not in known:
+                return x
+            t = t * known[vid] ** e
+        tot += t
+    return tot
 
 
 def eqz(a, b=0):
